@@ -36,6 +36,24 @@ theorem skel_SessionStore_Clear_ok : skel_SessionStore_Clear = ([
 
 theorem clear_maxAgeArgs_ok : clear_maxAgeArgs = (["req, c.Name, \"\", time.Hour * -1"] : List String) := rfl
 
-theorem clearRegex_args_ok : clearRegex_args = ([] : List String) := rfl
+theorem skel_SessionStore_clearCookiesExcept_ok : skel_SessionStore_clearCookiesExcept = ([
+  "req.Cookies",
+  "if ok",
+  "if isSessionCookieName(s.Cookie.Name, c.Name)",
+  "isSessionCookieName",
+  "s.makeCookie",
+  "http.SetCookie"] : List String) := rfl
+
+theorem skel_isSessionCookieName_ok : skel_isSessionCookieName = ([
+  "if candidate == name",
+  "return true",
+  "strings.LastIndex",
+  "if idx < 0",
+  "return false",
+  "strconv.Atoi",
+  "if err != nil || count < 0",
+  "return false",
+  "return candidate == splitCookieName(name, count)",
+  "splitCookieName"] : List String) := rfl
 
 end O2P.Expect.C11
